@@ -97,8 +97,7 @@ def RECOGNISERS():
 
 def result(name, obs, t0, notes=(), status="ok", reason=""):
     return {"name": name, "engine": "rxvc", "status": status, "reason": reason, "obligations": [o.to_json() for o in obs],
-            "assumptions": ["re: Pattern.match uses leftmost-priority backtracking (greedy items prefer longer, lazy items shorter, optional groups prefer to participate)",
-                            "the shipped patterns treat all private-use characters alike (no literal or range end point in U+E000..U+E005): the marker characters stand for arbitrary text characters"],
+            "assumptions": ["re: Pattern.match uses leftmost-priority backtracking (greedy items prefer longer, lazy items shorter, optional groups prefer to participate)"],
             "callees": [], "notes": list(notes), "seconds": time.time() - t0, "sha": "", "paths": 0}
 
 
